@@ -18,6 +18,7 @@ OPS = [
     "subgraph", "remove_in_edges", "remove_out_edges", "remove_nodes_from", "ancestors_inclusive",
     "descendants_inclusive", "districts", "get_district", "get_markov_pillow", "get_markov_blanket", "disorient",
     "moralize", "moral_graph", "get_no_effect_on_outcomes", "is_connected",
+    "pre", "get_nodes_in_directed_paths", "intervene", "topological_sort",
 ]
 
 
@@ -93,6 +94,39 @@ def concrete_spec(op, nodes, di, bi, S, extra=None):
         return ("set", nodes - X - c_anc(cut, Y))
     if op == "is_connected":
         return ("bool", len(c_districts(nodes, bi)) == 1)
+    if op == "pre":
+        order = list(extra)
+        out = []
+        for n in order:
+            if n in S:
+                break
+            out.append(n)
+        return ("list", out)
+    if op == "get_nodes_in_directed_paths":
+        T = set(extra)
+        out = set()
+        succ = {}
+        for u, v in di:
+            succ.setdefault(u, []).append(v)
+
+        def walk(path):
+            if path[-1] in T:
+                out.update(path)  # a simple path from a source to a target (may continue to other targets)
+            for w in succ.get(path[-1], []):
+                if w not in path:
+                    walk(path + [w])
+
+        for s0 in S:
+            walk([s0])
+        return ("set", out)
+    if op == "intervene":
+        from y0.dsl import Intervention
+
+        iv = [Intervention(x.name, False) for x in S]
+        f = lambda v: v.intervene(iv) if iv else v
+        return ("graph", {f(v) for v in nodes}, {(f(u), f(v)) for u, v in di if v not in S}, {frozenset((f(u), f(v))) for u, v in (tuple(e) for e in bis) if u not in S and v not in S})
+    if op == "topological_sort":
+        return ("topo", nodes, set(di))
     raise ValueError(op)
 
 
@@ -127,10 +161,29 @@ def native_run(op, g, S, extra=None):
         return ("set", set(g.get_no_effect_on_outcomes(set(S), set(extra))))
     if op == "is_connected":
         return ("bool", bool(g.is_connected()))
+    if op == "pre":
+        return ("list", list(g.pre(set(S), list(extra))))
+    if op == "get_nodes_in_directed_paths":
+        from y0.graph import get_nodes_in_directed_paths
+
+        return ("set", set(get_nodes_in_directed_paths(g, set(S), set(extra))))
+    if op == "intervene":
+        from y0.dsl import Intervention
+
+        if not S:
+            return ("graph", set(g.nodes()), set(g.directed.edges()), {frozenset(e) for e in g.undirected.edges()})
+        r = g.intervene({Intervention(x.name, False) for x in S})
+        return ("graph", set(r.nodes()), set(r.directed.edges()), {frozenset(e) for e in r.undirected.edges()})
+    if op == "topological_sort":
+        return ("topo", list(g.topological_sort()))
     raise ValueError(op)
 
 
 def native_matches(op, got, want):
+    if op == "topological_sort":
+        order, nodes, di = got[1], want[1], want[2]
+        pos = {n: i for i, n in enumerate(order)}
+        return sorted(order, key=str) == sorted(nodes, key=str) and len(set(order)) == len(order) and all(pos[u] < pos[v] for u, v in di)
     if op == "moralize":
         # nodes, directed edges kept; undirected part contains the old one; the flattened graph is the moral graph
         return got[1] == want[1] and got[2] == want[2] and got[4] == want[4] and want[3] <= got[5]
@@ -290,6 +343,46 @@ def run_symbolic(op, N, acyclic=False):
         same = spec_same_district(inp)
         spec = band(*[bor(bnot(inp.p[u]), bnot(inp.p[v]), same[u][v]) for u, v in itt.combinations(U, 2)])
         goals.append(bnot(biff(guard_of(val), spec)))
+    elif op == "pre":
+        # explicit order = the universe order (all nodes present); S symbolic
+        cons += [lift(inp.p[v]) for v in U]
+        val, raises = it.method(g, "pre", S, list(U))
+        from ..rsi.sym import SList
+
+        items = SList.of(val).items
+        bad = []
+        if [x for _, x in items] != list(U)[: len(items)] and [x for _, x in items] != list(U):
+            bad.append(True)  # pre() may only return a prefix of the order, in order
+        got = {x: gd for gd, x in items}
+        for i, v in enumerate(U):
+            spec = band(*[bnot(S.mem(w)) for w in U[: i + 1]])
+            bad.append(bnot(biff(got.get(v, False), spec)))
+        goals.append(bor(*bad))
+    elif op == "get_nodes_in_directed_paths":
+        T = sym_subset(U, "t")
+        extra_sets["T"] = T
+        cons += [z3.Implies(lift(T.mem(v)), lift(inp.p[v])) for v in U]
+        cons += [z3.Not(z3.And(lift(S.mem(v)), lift(T.mem(v)))) for v in U]  # sources and targets disjoint
+        fn = it.lookup_func("get_nodes_in_directed_paths", "graph")
+        val, raises = it.call(fn, g, S, T)
+        # spec: v lies on a simple directed path from some source to some target
+        spec = {v: False for v in U}
+        for s0 in U:
+            for t0 in U:
+                if s0 == t0:
+                    continue
+                others = [w for w in U if w not in (s0, t0)]
+                for k in range(len(others) + 1):
+                    for mid in itt.permutations(others, k):
+                        path = (s0, *mid, t0)
+                        gpath = band(S.mem(s0), T.mem(t0), *[inp.d[(a, b)] for a, b in zip(path, path[1:])])
+                        for v in path:
+                            spec[v] = bor(spec[v], gpath)
+        goals.append(set_differs(val, spec))
+    elif op == "intervene":
+        raise Unsupported("intervene is checked on the native corpus only (its result lives on a different node universe)")
+    elif op == "topological_sort":
+        raise Unsupported("topological_sort is a one-line delegation to networkx: checked on the native corpus only")
     else:
         raise ValueError(op)
     goals.append(raise_guard(raises))
@@ -313,6 +406,10 @@ def replay_model(op, q, model):
         extra = sorted(eval_set(model, q["extra"]["Y"]), key=str)
     if op == "get_district":
         extra = q["node"]
+    if op == "pre":
+        extra = list(inp.U)
+    if op == "get_nodes_in_directed_paths":
+        extra = sorted(eval_set(model, q["extra"]["T"]), key=str)
     return check_concrete(op, nodes, di, bi, sorted(S, key=str), extra)
 
 
@@ -357,6 +454,16 @@ def all_small_graphs(n):
             yield U, di, bi
 
 
+def _acyclic(nodes, di):
+    left = set(nodes)
+    while left:
+        free = [n for n in left if not any(v == n and u in left for u, v in di)]
+        if not free:
+            return False
+        left -= set(free)
+    return True
+
+
 def native_corpus(op, n):
     """Every mixed graph on n nodes x every S: real code natively against the concrete definitions."""
     bad, cnt = [], 0
@@ -372,6 +479,15 @@ def native_corpus(op, n):
                     extra = U[0]
                 if op == "get_no_effect_on_outcomes":
                     extra = [U[-1]]
+                if op == "pre":
+                    extra = list(reversed(U)) if len(S) % 2 else list(U)
+                if op == "get_nodes_in_directed_paths":
+                    extra = [w for w in U if w not in S][-1:]
+                    if not extra or not S:
+                        continue
+                if op == "topological_sort":
+                    if S or not _acyclic(U, di):
+                        continue
                 cnt += 1
                 r = check_concrete(op, U, di, bi, list(S), extra)
                 if r["bad"] and len(bad) < 3:
@@ -424,7 +540,7 @@ def run() -> int:
     rep.bounds = {"universe_nodes": N, "graphs": f"every mixed graph (any subset of the {N} nodes present, any directed edges incl. cycles, any bidirected edges), every node subset S of the present nodes", "solver_timeout_ms": timeout_ms}
     rep.assumptions = [
         "documented precondition: the vertex argument is a subset of the nodes of the graph",
-        "independence of insertion order is not decided (the relational model has no order); pre(), intervene(), topological_sort(), get_nodes_in_directed_paths() are not encoded in this version (see DESIGN.md)",
+        "independence of insertion order is not decided (the relational model has no order); intervene() and topological_sort() are checked only on the native corpus (every graph on 3 nodes), not symbolically; pre() is encoded with an explicit order; get_nodes_in_directed_paths() with disjoint source/target sets",
         "specification of moralize: the flattened moralised graph joins u, v iff they are adjacent or collider-connected through one district (augmented-graph criterion); moralize itself keeps nodes and directed edges and only adds undirected edges",
     ]
     rep.rule = "one query per operation = all graphs on the universe x all subsets S; states = number of Boolean graph/subset variables of the query; a query is non-trivial when its vacuity twin is sat"
@@ -436,7 +552,9 @@ def run() -> int:
             continue
         rep.cases += 1
         op = r["op"]
-        if r.get("status") == "unsupported":
+        if r.get("status") == "unsupported" and op in ("intervene", "topological_sort"):
+            rep.count("native_only_ops")
+        elif r.get("status") == "unsupported":
             rep.inconclusive += 1
             rep.inconclusive_samples.append({"op": op, "unsupported": r["why"]})
             rep.harness_errors.append(f"{op}: encoding cannot be built on this tree: {r['why']}")
